@@ -686,6 +686,10 @@ class Lexer(object):
 
     @ply.lex.TOKEN(identifier)
     def t_ID(self, token):
+        if self.cur_token_real and self.cur_token_real.type == 'PERIOD':
+            # an IdentifierName that follows a dot is a property name,
+            # whether it is spelled like a reserved word or not
+            return token
         token.type = self.keywords_dict.get(token.value, 'ID')
         return token
 
